@@ -20,7 +20,7 @@ ASSUMPTIONS = ['bounded liveness under a fair suffix: exhausting the budget is r
 PROBES = ['concurrent_posters', 'token_queue_full']
 PLAN = {
   'quick': {'strata': {'posters': 3000}, 'wall_s': 300, 'chunk': 50, 'min_conclusive': 500},
-  'thorough': {'strata': {'posters': 80000}, 'wall_s': 900, 'chunk': 100, 'min_conclusive': 5000},
+  'thorough': {'strata': {'posters': 80000}, 'wall_s': 900, 'chunk': 100, 'min_conclusive': 500},
 }
 BUDGET = 120000
 
@@ -28,11 +28,12 @@ BUDGET = 120000
 def generate(seed, stratum, tier):
   rng = random.Random(seed)
   cap = rng.choice([2, 3, 3, 4, 6, 500])
-  nclients = rng.randrange(2, 6)
+  big = common.deep(rng)
+  nclients = common.span(rng, 2, 6, big)
   clients = []
   for c in range(nclients):
     clients.append([[rng.choice(['post_fifo', 'post_fifo', 'post_lifo']), 0, rng.choice(aw.USER_SIGNALS[:3])]
-                    for _ in range(rng.randrange(1, 5))])
+                    for _ in range(common.span(rng, 1, 5, big, 3))])
   clients[0].insert(0, ['start', 0])
   for c in range(1, nclients):
     clients[c].insert(0, ['sleep', 0.001])
